@@ -143,7 +143,10 @@ class Interp:
         self.started = set()
 
         class A(Exception):
-            pass
+            # a falsy exception object (an application error with `__len__`, say): nothing in the library may take the truth
+            # value of an exception for "there is an exception"
+            def __bool__(self):
+                return False
 
         class B(A):
             pass
